@@ -50,7 +50,7 @@ def gen(rep, tier, clauses=("dtype_rule",)):
         if f["clause"] in clauses:
             rep.fail(f["clause"], "types.gen", {"case": f["case"], "palette": f["palette"], "api": f["api"]},
                      f["observed"], f["expected"], finding=_finding(f))
-    return out["truth"]
+    return {"truth": out["truth"], "rule": [], "writeback": []}
 
 
 def _finding(f):
